@@ -32,6 +32,7 @@ def generate(seed, tier="quick"):
         op["kw"] = sampling.gen_iterative_kw(rnd, N, pname)
         op["kw"]["init_batch_size"] = rnd.randint(1, N)
         op["kw"].pop("growth_factor", None)
+        sampling.add_arg_types(rnd, op)
         prog["ops"].append(op)
     return prog
 
